@@ -63,12 +63,16 @@ Fixpoint split_first (sep : ascii) (s : string) : option (string * string) :=
   end.
 
 (* strings.Split(s, sep) for a one-byte separator (never returns the empty list) *)
-Fixpoint split_all_aux (sep : ascii) (s cur : string) : list string :=
+Fixpoint split_all (sep : ascii) (s : string) : list string :=
   match s with
-  | EmptyString => [cur]
-  | String c r => if Ascii.eqb c sep then cur :: split_all_aux sep r "" else split_all_aux sep r (cur ++ String c "")
+  | EmptyString => [EmptyString]
+  | String c r =>
+      if Ascii.eqb c sep then EmptyString :: split_all sep r
+      else match split_all sep r with
+           | x :: xs => String c x :: xs
+           | [] => [String c EmptyString]
+           end
   end.
-Definition split_all (sep : ascii) (s : string) : list string := split_all_aux sep s "".
 
 Fixpoint join_with (sep : string) (l : list string) : string :=
   match l with [] => "" | [x] => x | x :: r => x ++ sep ++ join_with sep r end.
@@ -234,3 +238,35 @@ Proof. induction m; cbn; [destruct r; reflexivity | congruence]. Qed.
 
 Lemma get_snoc m l : get (String.length m) (m ++ String l "") = Some l.
 Proof. induction m; cbn; auto. Qed.
+
+Lemma split_all_nonnil sep s : split_all sep s <> [].
+Proof.
+  induction s as [|c r IH]; cbn; [discriminate|].
+  destruct (Ascii.eqb c sep); [discriminate|]. destruct (split_all sep r); discriminate.
+Qed.
+
+Lemma split_all_nosep sep s : contains sep s = false -> split_all sep s = [s].
+Proof.
+  induction s as [|c r IH]; cbn; [reflexivity|]. intro H.
+  apply orb_false_iff in H as [H1 H2]. rewrite H1, (IH H2). reflexivity.
+Qed.
+
+Lemma split_all_app sep a b :
+  contains sep a = false -> split_all sep (a ++ String sep b) = a :: split_all sep b.
+Proof.
+  induction a as [|c r IH]; cbn; intro H.
+  - rewrite Ascii.eqb_refl. reflexivity.
+  - apply orb_false_iff in H as [H1 H2]. rewrite H1, (IH H2). reflexivity.
+Qed.
+
+Lemma split_join sep ds :
+  ds <> [] -> Forall (fun d => contains sep d = false) ds ->
+  split_all sep (join_with (String sep "") ds) = ds.
+Proof.
+  induction ds as [|d r IH]; [congruence|]. intros _ H. inversion H as [|? ? Hd Hr]; subst.
+  destruct r as [|d2 r2].
+  - cbn. apply split_all_nosep. exact Hd.
+  - change (join_with (String sep "") (d :: d2 :: r2)) with (d ++ String sep "" ++ join_with (String sep "") (d2 :: r2)).
+    change (String sep "" ++ join_with (String sep "") (d2 :: r2)) with (String sep (join_with (String sep "") (d2 :: r2))).
+    rewrite split_all_app by exact Hd. f_equal. apply IH; [discriminate|exact Hr].
+Qed.
